@@ -254,6 +254,32 @@ func runC16(c *eng.Ctx) {
 		c.Check(n >= 1, "base-set", nil, nil, "the sharding base is stored when the database channel is created", fmt.Sprintf("%d stores", n))
 	})
 
+	// ---- 2b3. the three wire formats apply the same per-metric limits (sibling cross-check) ------------------------------------------------
+	c.Rule("SYMMETRY", "ingestion{every wire format applies every per-metric limit}", func() {
+		formats := []struct {
+			name string
+			fns  []string
+		}{
+			{"protobuf", []string{cvtT + ".validateMetric", cvtT + ".MarshalProtoMetricV1"}},
+			{"flat", []string{"series/metric.BrokerRowFlatDecoder.rebuild", "series/metric.BrokerRowFlatDecoder.DecodeTo"}},
+			{"line-protocol", []string{"ingestion/influx.parseInfluxLine", "ingestion/influx.Parse"}},
+		}
+		limits := []string{"EnableMetricNameLengthCheck", "EnableTagsCheck", "EnableTagNameLengthCheck", "EnableTagValueLengthCheck", "EnableFieldsCheck", "EnableFieldNameLengthCheck"}
+		for _, l := range limits {
+			for _, f := range formats {
+				found := false
+				for _, k := range f.fns {
+					if p.Contains(c.Fn(k), eng.AnyCallTo("models.Limits."+l), 2) {
+						found = true
+					}
+				}
+				c.Check(found, l+"@"+f.name, nil, c.Fn(f.fns[0]),
+					"a metric is accepted or refused by the same limits whatever format it arrives in: the "+f.name+" path consults "+l+"()", f.name+" never calls Limits."+l)
+			}
+		}
+		c.Observe("EnableNamespaceLengthCheck is consulted by the flat decoder only (protobuf and line protocol take the namespace from the request); a minority of one, not armed")
+	})
+
 	// ---- 2c. rows are grouped into families of the SMALLEST configured interval --------------------------------------------------
 	c.Rule("PROV", "replica.newDatabaseChannel{write interval = smallest configured interval}", func() {
 		f := c.Fn("replica.newDatabaseChannel")
